@@ -144,6 +144,9 @@ func (p *Program) RegisterSpecs() (err error) {
 			ctx := p.specCtx(map[string]TV{})
 			t := ctx.termOf(ctx.eval(a.E))
 			p.U.Axioms = append(p.U.Axioms, &Axiom{Name: a.Name, T: t})
+			if a.Theorem {
+				p.Theorems = append(p.Theorems, &TheoremOb{Name: a.Name, T: t, Reveal: a.Reveal, Text: a.Text, Where: fmt.Sprintf("%s:%d", a.File, a.Line)})
+			}
 		}()
 	}
 	return nil
@@ -265,4 +268,24 @@ func (p *Program) LemmaStatement(name string) (li *LemmaInst, err error) {
 		return nil, fmt.Errorf("lemma %s has no trigger (an application of a spec function to exactly its parameters)", name)
 	}
 	return &LemmaInst{Name: name, Params: bs, Trigger: trig, Body: body}, nil
+}
+
+type TheoremOb struct {
+	Name   string
+	T      *Term
+	Reveal []string
+	Text   string
+	Where  string
+}
+
+// TheoremObligation: a theorem is proved from the definitions it reveals and the other axioms, never from itself.
+func (p *Program) TheoremObligation(th *TheoremOb) *Obligation {
+	rv := map[string]bool{}
+	for _, n := range th.Reveal {
+		rv[n] = true
+	}
+	ob := &Obligation{Name: "theorem:" + th.Name, Fn: "(spec)", Kind: "lemma", Label: th.Name, Clause: th.Text, Where: th.Where}
+	ob.Queries = []*Query{{U: p.U, Goal: th.T, Reveal: rv, ExcludeAxiom: th.Name}}
+	ob.Traces = [][]string{nil}
+	return ob
 }
